@@ -301,6 +301,8 @@ PROPS["C11"] = {
         leg("alloc-fail2", "c11_vector", (2, 2), {"prog": "B|G9|B", "allocfail": 2, "pre": 2}, what="second allocation throws"),
         leg("alloc-fail-table", "c11_vector", (2, 2), {"prog": "G3|G9|B", "allocfail": 3, "pre": 6}, what="allocation failure around the long-table switch"),
         leg("segment-arithmetic", "c11_segarith", (0, 0), {}, flags=(), what="bijection of segment_index_of/segment_base/segment_size: all indices < 2^20, +-2 around every 2^k up to 2^63"),
+        leg("huge-sizes-q", "c11_huge", (0, 0), {"nsizes": 2, "case_timeout": 90}, flags=(), what="growth calls crossing 2^31 (one-byte elements, address space only): grow_to_at_least(n) / grow_to_at_least(n,value) / grow_by for n = 2^31-1, 2^31 from sizes 0 and 5: size(), constructions, allocated segments, element addresses", tiers=("quick",), weight=2.0),
+        leg("huge-sizes", "c11_huge", (0, 0), {"nsizes": 7, "case_timeout": 240}, flags=(), what="same for n = 2^31-1, 2^31, 2^31+1, 2^32-1, 2^32, 2^32+3, 3*2^30", tiers=("thorough",), weight=4.0),
     ] + _c11_sweeps(),
 }
 
@@ -507,6 +509,9 @@ PROPS["C20"] = {
         leg("arena1-late", "c20_suspend", (2, 3), {"kind": "arena1", "late": 1}, what="arena of one slot, the resumer waits until the suspending thread has gone to sleep (late resume must still wake it)"),
         leg("foreign-late", "c20_suspend", (1, 2), {"kind": "foreign", "late": 1}, what="late resume with main and worker asleep", weight=2.0),
         leg("nested-late", "c20_suspend", (1, 2), {"kind": "nested", "late": 1}, what="two suspended tasks, late resume in reverse order", weight=2.0),
+        leg("critical-late", "c20_suspend", (2, 3), {"kind": "critical", "late": 1}, what="suspension inside a critical task (flow-graph node with a priority) in a one-slot arena; the foreign thread resumes when the arena's only thread sleeps (resume task in the critical stream)"),
+        leg("critical", "c20_suspend", (2, 3), {"kind": "critical"}, what="same, resume races the suspension"),
+        leg("recall", "c20_suspend", (0, 1), {"kind": "recall"}, what="owner recall: the worker continues the main thread's outermost stack after a resume, the coroutine cache is emptied by a third suspension, the wait completes on the worker: it must leave through a fresh coroutine and still recall the owner", weight=3.0),
         leg("twice", "c20_suspend", (1, 2), {"kind": "twice"}, what="the same task suspends twice", weight=2.0),
     ],
 }
